@@ -103,6 +103,10 @@ func (r *ruleState) scheduleRules(tr *TxRec, req *ReqRec, pre, post *tables.Tabl
 		if nx, valid := CronNext(a.Cron, ok); valid && b.NextRunTime != nx {
 			s.violate("T13.next_run", P("C10"), "schedule", "next run time is not the next occurrence", fmt.Sprintf("cron %q after %d is %d: %s -> %s", a.Cron, ok, nx, a, b))
 		}
+		// (an "@every d" schedule has no absolute occurrences: each one is d after the previous)
+		if at, valid := CronNext(a.Cron, ok-1); !strings.HasPrefix(strings.TrimSpace(a.Cron), "@every") && (!valid || at != ok) {
+			s.violate("T13.not_an_occurrence", P("C10"), "schedule", "fired at an instant that is not an occurrence of the cron expression", fmt.Sprintf("cron %q has no occurrence at %d: %s -> %s", a.Cron, ok, a, b))
+		}
 		if clock < ok {
 			s.violate("T13.early", P("C10"), "schedule", "fired before the occurrence time", fmt.Sprintf("clock %d < %d: %s", clock, ok, a))
 		}
@@ -235,6 +239,10 @@ func (s *Sim) resolve(recv *string) (typ string, data string, ok bool) {
 	}
 	if err := json.Unmarshal([]byte(*recv), &obj); err != nil {
 		return "", "", false
+	}
+	if len(obj.Data) == 0 {
+		// no data member: the transport is handed an empty address
+		return obj.Type, "", true
 	}
 	return obj.Type, compactJSON(obj.Data), true
 }
